@@ -16,6 +16,7 @@
     variables: plain ones ([vars]) or dictionaries keyed by a tracking value ([dicts], in insertion order).  No proofs here. *)
 From Coq Require Import ZArith List Bool.
 From V Require Import Csv.CsvModel Data.DataModel Scan.ScanModel Run.RunLoop Match.Adjudicate.
+From V Require Match.Assign.      (* the assignment decision of C14: qualified names only (its mkQ is another record's constructor) *)
 Import ListNotations.
 Open Scope Z_scope.
 
@@ -62,8 +63,9 @@ Inductive agg :=
   | TallyC (i j : nat)
   | CounterE (nm : Z) (e : nexp)             (* counter.nm(e): the increment is the argument's value on this line *)
   | CounterEq (nm : Z) (k n : Z)             (* counter.nm(k) == n: the function's value is the counter AFTER this click *)
-  | CountIf (v nm : Z) (c : bexp).           (* @v = count.nm(c): dictionary nm counts the lines per answer of c (keys True / False), on every
+  | CountIf (v nm : Z) (c : bexp)            (* @v = count.nm(c): dictionary nm counts the lines per answer of c (keys True / False), on every
                                                 line the component is evaluated on (no onmatch); v gets the count for this line's answer *)
+  | AssignQ (qs : Assign.quals) (v : Z) (e : nexp).   (* @v.<qualifiers> = e (no onmatch): written and voted as Match/Assign.do_assignment decides *)
 Inductive action := AssignN (x : Z) (e : nexp) | AssignS (x : Z) (e : sexp) | PushN (k : Z) (e : nexp) | PushS (k : Z) (e : sexp) | Pop (x k : Z) | PushD (k : Z) (e : nexp)
   | Agg (g : agg).
 Inductive comp := CB (b : bexp) | CAct (a : action) | CWhen (b : bexp) (a : action) | CAgg (g : agg).
@@ -282,6 +284,10 @@ Section Eval.
   (** ExpressionUtility.is_none on the modelled values: None, or text that is blank *)
   Definition none_like (v : value) : bool := match v with VNone => true | VS t => is_blank_text t | _ => false end.
 
+  (** the values of Match/Assign.v (None | int | str); a float is read as the integer it holds (not generated) *)
+  Definition aval_of (v : value) : Assign.aval :=
+    match v with VI z | VF z => Assign.AInt z | VS t => Assign.AStr t | VNone => Assign.ANone end.
+
   Definition do_agg (s : cst) (l : line ustring) (g : agg) : cst * bool :=
     let m := x mx s in
     match g with
@@ -320,6 +326,13 @@ Section Eval.
     | CounterEq nm k n =>
         let cnt := num_of (lookup nm (vars m)) + k in
         (with_mx s (mkMx (update nm (VI cnt) (vars m)) (stacks m) (dicts m)), cnt =? n)
+    | AssignQ qs v e =>
+        let y := nvalue s l e in
+        match Assign.do_assignment qs true (aval_of (match lookup v (vars m) with Some c0 => c0 | None => VNone end)) (aval_of y) with
+        | Some (true, vote) => (with_mx s (mkMx (update v y (vars m)) (stacks m) (dicts m)), vote)
+        | Some (false, vote) => (s, vote)
+        | None => (s, false)               (* an int compared with text: Python raises; not generated *)
+        end
     | CountIf v nm c =>
         let key := if beval s l c then py_true else py_false in
         let cnt := num_of (dget m nm key) + 1 in
